@@ -23,6 +23,12 @@ from pv.codec import build, Env, token, vtoken, s_scalar, s_dt, S_INTS, S_FLOATS
 
 ASSUMPTIONS = [
     'cells are None, ints, finite floats, strings, datetimes (no NaN: NaN key identity is C02 territory; no bools; no +-inf)',
+    'ints stay far below 2**53 in absolute value: cmp() compares ints after float(), so distinct ints >= 2**53 (2**53 and 2**53+1) are ONE key for '
+    '_listby - candidate defect, reported and kept as replays/C11/candidate-bigint-keys-merged.json.pending, excluded by construction',
+    'large tables (64/65/100/128/200 rows; wide pivots of 24-200 rows with 20-30 labels) are a pattern of 2-9 generated rows repeated ("tiled": interleaved, '
+    '"blocks": equal keys adjacent) with a distinct int per row in one non-key column, so keys are few and groups are big; about 1-3% of the cases',
+    'the table a regrouping is called on must still hold the same cells afterwards, and calling the inverse (unlist / ungroup / unpivot) a second time '
+    'must give the same table again - otherwise "the original table" / "restores" would hold for the first call only',
     'column names: single letters k,j,u,w,m,n in half of the cases, otherwise families of nested names (trade_id/trade/id/de, date/da/te/at, kkk/kk/k, '
     'uw/u/w/uwm, n_m/n/m/nm) so that names are substrings, prefixes and suffixes of each other; never a dictable constructor parameter, the default group '
     'column (data, columns, key, grp, index, axis), an attribute of dictable/Dict, a name starting with an underscore, or a string cell (so a pivot label '
@@ -124,8 +130,8 @@ def _tclass(v):
     return v[0]
 
 
-_LARGE_N = [64, 65, 100, 128, 200]
-_WIDE_N = [24, 40, 64, 100, 128, 200]
+_LARGE_N = [64, 65, 64, 65, 100, 128, 200]        # the thresholds 64/65 twice: they are the cheapest large tables
+_WIDE_N = [24, 40, 64, 65, 100, 128, 200]
 
 
 def _wide_label(kind, j):
@@ -273,6 +279,16 @@ def _cells(draw, key_like):
     return None
 
 
+def _lottery(content, k):
+    """
+    a number in range(k) that depends only on the drawn content. Used to pick the rare large cases: hypothesis draws small
+    integer ranges far from uniformly (measured: 0.3% to 3% for one value of 60), a checksum of the content is uniform.
+    """
+    import json
+    import zlib
+    return zlib.crc32(json.dumps(content, sort_keys=True).encode()) % k
+
+
 def _rows(draw, strategies, lo, top):
     """a list of rows (so that rows are what shrinks away), returned as columns; None strategy = distinct scrambled ints"""
     n_min = draw(st.sampled_from([3, 6, 2, lo]))          # hypothesis favours (and shrinks to) the first choice: make that a useful size
@@ -298,7 +314,7 @@ def _regroup_case(draw, tier, with_grp=False):
     strategies = [_cells(draw, c in by) for c in cols]
     columns = _rows(draw, strategies, 0, top)
     spec = dict(cols=cols, data=dict(zip(cols, columns)), by=by, form=draw(st.sampled_from(['names', 'list'])))
-    if draw(st.integers(0, 39)) == 23 and len(columns[0]) >= 2:
+    if _lottery(columns, 20) == 3 and len(columns[0]) >= 2:
         # a LARGE table with few distinct keys (big groups): the pattern drawn above blown up to 64..200 rows (see _expand)
         spec['tile'] = dict(n=draw(st.sampled_from(_LARGE_N)), layout=draw(st.sampled_from(['tiled', 'blocks'])),
                             pos=[c for c, s in zip(cols, strategies) if s is None] or [[c for c in cols if c not in by][0]])
@@ -531,7 +547,7 @@ def _pivot_case(draw, tier):
     spec = dict(cols=order, data={c: data[c] for c in order}, x=x, xform=draw(st.sampled_from(['str', 'list'])) if nx == 1 else 'list',
                 y=y, z=z, agg=agg, ykind=ykind, method=draw(st.sampled_from(['xyz', 'pivot'])),
                 aggform=draw(st.sampled_from(['fn', 'fn', 'list1', 'list2'])))
-    size = draw(st.integers(0, 39))
+    size = _lottery(data, 20) + 20
     if size in (23, 31) and len(data[y]) >= 2:
         # 23: a LARGE table (the pattern blown up, see _expand); 31: a WIDE one, whose y column cycles through 20-30 labels
         tile = dict(n=draw(st.sampled_from(_LARGE_N)), layout=draw(st.sampled_from(['tiled', 'blocks'])), pos=[] if agg == 'sum' else [z])
@@ -678,13 +694,13 @@ def _label_of(lab, yv):
 SUBS = [
     Sub('listby_unlist', lambda tier: _regroup_case(tier), run_listby, quick=3000, thorough=20000,
         rule='tables of 0-9 rows x 2-4 columns (thorough: 0-14 x 2-5), cells None/ints/floats/strings/datetimes with heavy duplication in key columns '
-             '(small value pools, homogeneous and mixed-type, int/float twins); keys = a non-empty proper subset in any order, as *names or one list; column names nested in each other in half of the cases. '
+             '(small value pools, homogeneous and mixed-type, int/float twins); keys = a non-empty proper subset in any order, as *names or one list; column names nested in each other in half of the cases; about 1.5% large tables of 64/65/100/128/200 rows with few keys. '
              'oracle: nested-loop grouping of the spec; listby has exactly one row per distinct key, other cells list the key\'s values in row order; '
              'unlist = contiguous key blocks, each the key\'s rows in original order, blocks increasing under cmp (and natively where comparable). '
              'non-trivial = some key with >= 2 rows and >= 2 distinct keys',
         floor=0.2, class_floors={'mixed_type_key': 0.15, 'int_and_float_key': 0.03, 'order_visible': 0.2, 'reordered': 0.2, 'nkeys=2': 0.1, 'all_keys_unique': 0.05, 'empty': 0.005,
                                  'colname_substring_of_key': 0.08, 'colname_substring_of_single_key': 0.04, 'key_substring_of_colname': 0.08,
-                                 'rows>=64': 0.008, 'biggest_group>=16': 0.005, 'already_sorted_with_dups': 0.02, 'falsy_key': 0.3, 'none_key': 0.15, 'one_row': 0.01,
+                                 'rows>=64': 0.005, 'biggest_group>=16': 0.004, 'already_sorted_with_dups': 0.02, 'falsy_key': 0.3, 'none_key': 0.15, 'one_row': 0.01,
                                  'by_not_in_column_order': 0.05, 'dup_in_first_group': 0.2, 'dup_in_last_group': 0.2, 'identical_rows': 0.1}),
     Sub('groupby_ungroup', lambda tier: _regroup_case(tier, with_grp=True), run_groupby, quick=3000, thorough=20000,
         rule='same tables and keys as listby_unlist, default and custom grp column name. oracle: one row per distinct key, each sub-table holds exactly '
@@ -692,17 +708,17 @@ SUBS = [
              'of rows (key cells by ==, other cells by type and value). non-trivial = some key with >= 2 rows and >= 2 distinct keys',
         floor=0.2, class_floors={'mixed_type_key': 0.15, 'single_and_multi_row_groups': 0.15, 'grp=g': 0.1, 'all_keys_unique': 0.05, 'empty': 0.005,
                                  'colname_substring_of_key': 0.08, 'colname_substring_of_single_key': 0.04, 'key_substring_of_colname': 0.08,
-                                 'rows>=64': 0.008, 'biggest_group>=16': 0.005, 'falsy_key': 0.3, 'none_key': 0.15, 'one_row': 0.01,
+                                 'rows>=64': 0.005, 'biggest_group>=16': 0.004, 'falsy_key': 0.3, 'none_key': 0.15, 'one_row': 0.01,
                                  'by_not_in_column_order': 0.05, 'dup_in_first_group': 0.2, 'dup_in_last_group': 0.2, 'identical_rows': 0.1}),
     Sub('pivot_unpivot', lambda tier: _pivot_case(tier), run_pivot, quick=3000, thorough=20000,
         rule='non-empty tables of 1-9 rows (thorough 1-14), x = 1-2 mixed-type key columns, y = strings | ints | floats | datetimes | a mix of strings, ints and datetimes, '
-             'z non-None, optional bystander column, agg in None/last/sum/len/tuple, nested column names in half of the cases, a quarter of the cases with unique (x, y) pairs by construction. '
+             'z non-None, optional bystander column, agg in None/last/sum/len/tuple spelled as a function, [function] or [list, function], nested column names in half of the cases, 1-3% large (64-200 rows) or wide (20-30 labels) tables, a quarter of the cases with unique (x, y) pairs by construction. '
              'oracle: nested-loop model {(x key, y value): z values in row order}; pivot rows <-> distinct x keys and label columns <-> distinct y values '
              'are bijections, every cell = agg(values) or None; unpivot minus None cells = one row per (x, y) with the aggregated z (multiset). '
              'non-trivial = >= 2 x keys and >= 2 y values and (an aggregated duplicate or a None cell)',
         floor=0.2, class_floors={'dup_xy': 0.2, 'unique_xy': 0.2, 'none_cell': 0.3, 'mixed_type_key': 0.15, 'nx=2': 0.2, 'agg=none': 0.1, 'agg=last': 0.1, 'agg=sum': 0.1, 'agg=len': 0.1, 'agg=tuple': 0.1,
                                  'colname_substring_of_key': 0.08, 'key_substring_of_colname': 0.08,
-                                 'rows>=64': 0.008, 'labels>=20': 0.008, 'falsy_cell': 0.08, 'falsy_key': 0.3, 'pivot_1x1': 0.03, 'one_label': 0.1, 'one_x_key': 0.05,
+                                 'rows>=64': 0.004, 'labels>=20': 0.004, 'falsy_cell': 0.08, 'falsy_key': 0.3, 'pivot_1x1': 0.03, 'one_label': 0.1, 'one_x_key': 0.05,
                                  'one_row': 0.02, 'aggform=list1': 0.1, 'aggform=list2': 0.1, 'x_not_in_column_order': 0.1,
                                  'y=str': 0.05, 'y=int': 0.05, 'y=float': 0.05, 'y=dt': 0.05, 'y=mixed': 0.1}),
 ]
